@@ -68,20 +68,28 @@ func ruleRPCResources(c *Ctx) {
 			continue
 		}
 		for _, call := range callsIn(f) {
-			if _, ok := isCallTo(call, getRPC, pop, popL); ok {
+			if _, ok := isCallTo(call, getRPC, pop, popL, rel); ok {
 				roots[f] = true
 			}
 		}
 	}
 	var names []string
+	rootTops := map[*ssa.Function]bool{}
 	for f := range roots {
 		names = append(names, fnName(f))
+		rootTops[TopLevel(f)] = true
 	}
 	for _, name := range sortedStrings(names) {
 		root := p.Fn(name)
 		c.inst(1)
 		sp := &Spec{}
 		sp.Classify = func(t *Tracer, fr *Frame, in ssa.Instruction) []Ev {
+			// a function that populates on its own is a root of its own: every root is decided separately
+			if call, ok := in.(ssa.CallInstruction); ok {
+				if sf := call.Common().StaticCallee(); sf != nil && sf.Parent() == nil && rootTops[sf] && sf != TopLevel(t.Root) {
+					return []Ev{{Kind: "nested-root", Stop: true}}
+				}
+			}
 			if call, ok := isCallTo(in, getRPC, pop, popL); ok {
 				return []Ev{{Kind: "populate", Note: elemKey(t, fr, callArgs(call.Common())[0]), Stop: true}}
 			}
@@ -102,6 +110,18 @@ func ruleRPCResources(c *Ctx) {
 		bad := ""
 		for _, path := range tr.Paths {
 			for i, e := range path {
+				if e.Kind == "release" {
+					// a release is the acknowledgement of a hand-over: something was handed over before it
+					handed := false
+					for _, e2 := range path[:i] {
+						if e2.Kind == "send" {
+							handed = true
+						}
+					}
+					if !handed {
+						bad = "resources are released (marked sent, queued events let through) before the response that carries them is handed over: the receiver renders a graph that has already moved on: " + tr.FmtPath(path)
+					}
+				}
 				if e.Kind != "populate" {
 					continue
 				}
